@@ -211,6 +211,12 @@ thread_local! {
 
 static ACTIVE: Mutex<Option<Arc<Shared>>> = Mutex::new(None);
 
+/// Teardown aid for backends that supply no exit events (their workers can never be asked to
+/// stop): once set, a worker waiting in (or arriving at) `epoll_wait` gets EBADF from the
+/// cooperative fault point and its event loop ends with an error, so the thread can be joined.
+static ABORT_WORKERS: std::sync::atomic::AtomicBool = std::sync::atomic::AtomicBool::new(false);
+const EPOLL_WAIT_LABEL: &str = "worker.epoll_wait";
+
 /// Callback invoked (with the state lock held) when a run cannot continue: writes the report
 /// and terminates the process. Set by the runner.
 pub static FATAL: Mutex<Option<fn(&Violation, &State, bool) -> !>> = Mutex::new(None);
@@ -280,9 +286,10 @@ impl State {
     /// Choose the next task. `None` = nobody can run.
     fn pick_next(&mut self, from: usize, label: &'static str) -> Option<usize> {
         let mut runnable: Vec<usize> = Vec::new();
+        let abort = ABORT_WORKERS.load(Ordering::Relaxed);
         for (i, t) in self.tasks.iter().enumerate() {
             if let TState::Waiting(c) = &t.state {
-                if c.ready(&self.tasks) {
+                if c.ready(&self.tasks) || (abort && t.label == EPOLL_WAIT_LABEL) {
                     runnable.push(i);
                 }
             }
@@ -685,7 +692,13 @@ impl Sim {
     }
 
     /// End of the run: the harness must be the only task left.
+    /// See `ABORT_WORKERS`. In force until the run ends.
+    pub fn abort_workers(&self) {
+        ABORT_WORKERS.store(true, Ordering::Relaxed);
+    }
+
     pub fn finish(self) -> RunStats {
+        ABORT_WORKERS.store(false, Ordering::Relaxed);
         *ACTIVE.lock().unwrap() = None;
         ME.with(|m| {
             if let Some(me) = m.borrow_mut().take() {
@@ -965,6 +978,10 @@ unsafe fn hook_recv(sock: &UnixStream, iovs: &mut [iovec], fds: &mut [RawFd]) ->
 fn inject_errno(label: &'static str) -> Option<i32> {
     let (sh, id) = with_me(|sh, id| (sh.clone(), id))?;
     let mut st = sh.lock();
+    if label == EPOLL_WAIT_LABEL && ABORT_WORKERS.load(Ordering::Relaxed) {
+        st.ev(id, "worker.epoll_wait -> EBADF (teardown of a backend without exit events)");
+        return Some(libc::EBADF);
+    }
     let fc = st.faults.clone();
     if fc.point_eintr == 0 || st.eintr_used >= fc.eintr_budget {
         return None;
